@@ -308,7 +308,7 @@ NAMEPOOL = ['p0', 'p1', 'p2', 'p3', 'p4', 'p5', 'p10', 'p11', 'pc', 'ein', 'iin'
 def node_names(rng, n):
     """node keys whose declaration order is (usually) NOT lexicographic: order-sensitive wiring must follow the
     declaration order, not a sorted one"""
-    if rng.random() < 0.25:
+    if rng.random() < 0.25 or n > len(NAMEPOOL):
         return [f'p{i}' for i in range(n)]
     return rng.sample(NAMEPOOL, n)
 
@@ -671,11 +671,11 @@ def add_edge_templates(rng, spec, p=0.5, uniq='', delayed=False):
     return spec
 
 
-def gen_big(rng, kind=None, delays=None, uniq=''):
+def gen_big(rng, kind=None, delays=None, uniq='', n=None):
     """10-16 nodes of ONE operator kind (a vectorized group beyond the matrix_sparseness threshold) wired as a ring, a
     shuffled chain, a hub fan-out or a converging pattern (every node fed by its two predecessors); distinct weights"""
     lib = rng.choice(['lin', 'leak', 'integ'])
-    n = rng.randint(10, 16)
+    n = n or rng.randint(10, 16)
     spec = gen_net(rng, n_nodes=n, libs=(lib,), max_edges=0, uniq=uniq, build='python')
     names = list(spec['nodes'])
     opn = next(iter(spec['ops'].values()))['name']
